@@ -92,6 +92,7 @@ func (fr *Frame) callIfaceContract(x ssa.CallInstruction, fullKey string, plen i
 			}
 			g := fr.evalClauseWith(cl, lookup, st, vc.entry)
 			vc.callCount++
+			vc.fired(cl)
 			vc.curClauseProps = cl.Props
 			vc.Oblige("callsite", fmt.Sprintf("%s#%d.%s", key, vc.callCount, cl.Label), x.Pos(), st, g, cl.Src)
 			vc.curClauseProps = nil
@@ -147,6 +148,7 @@ func (fr *Frame) callDynamic(x ssa.CallInstruction, f Term, args []Val, st *Stat
 		for _, cl := range vc.ct.CallSites[tname] {
 			g := fr.evalCallSite(cl, f, args, st)
 			vc.callCount++
+			vc.fired(cl)
 			vc.curClauseProps = cl.Props
 			vc.Oblige("callsite", fmt.Sprintf("%s#%d.%s", tname, vc.callCount, cl.Label), pos, st, g, cl.Src)
 			vc.curClauseProps = nil
